@@ -86,6 +86,16 @@ func (m MetavarMatcher) Match(got reflect.Value, d data.Data, r Region) (data.Da
 		return d, false
 	}
 
+	// A metavariable stands for a piece of code. An optional node that is
+	// absent from the file (for example, the label of a bare "break") has
+	// nothing to bind to.
+	switch got.Kind() {
+	case reflect.Ptr, reflect.Interface:
+		if got.IsNil() {
+			return d, false
+		}
+	}
+
 	key := metavarKey(m.Name)
 
 	var md metavarData
